@@ -3,7 +3,7 @@
   `Inv` (Lemmas/SchedInv) states, among others: for every state x, `counts x` = number of
   non-phony builds in state x; `pending` = number of builds in Want/Ready/Queued/Running.
 -/
-import N2V.Lemmas.SchedBuild
+import N2V.Lemmas.SchedExamples
 namespace N2V.C19
 open N2V N2V.Sched
 
@@ -78,5 +78,37 @@ theorem counts_every_iteration {E : Type} {g : Graph} {par : Nat} (c : Choices E
     (perms : List (List Nat)) (fin : List (Nat × Term)) (inv : Inv g par s)
     (h : (runLoop g par c fuel s e perms fin).result = .ok true) :
     Inv g par (runLoop g par c fuel s e perms fin).s := runLoop_inv c fuel s e perms fin inv h
+
+/-- **C19 at every update of every invocation**: every progress update any `run::build` emits —
+    whatever the outcome — shows, for each state, exactly the number of non-phony builds in that
+    state at that moment; and so does every single transition, together with the pending total. -/
+theorem counts_exact_at_every_update {E : Type} {g : Graph} (gok : GraphOK g) (a : Run.Args) (c : Choices E)
+    (e : E) (cs : List Int) (tr' : List Ev) (hs : (.update cs :: tr') <:+ (Run.build g a c e).1.trace) :
+    cs = exactCounts g (stOf tr') :=
+  counts_at_every_update (Run.build_tinv gok a c e).ok hs
+
+theorem counts_exact_at_every_transition {E : Type} {g : Graph} (gok : GraphOK g) (a : Run.Args)
+    (c : Choices E) (e : E) (id : Nat) (prev new : St) (cs : List Int) (pend : Int) (tr' : List Ev)
+    (hs : (.set id prev new cs pend :: tr') <:+ (Run.build g a c e).1.trace) :
+    cs = exactCounts g (stOf (.set id prev new cs pend :: tr')) ∧
+    pend = (cnt g.nBuilds (fun b => active (stOf (.set id prev new cs pend :: tr') b)) : Int) :=
+  counts_at_every_set (Run.build_tinv gok a c e).ok hs
+
+theorem counts_exact_at_every_update_reloaded {E : Type} {g : Graph} (gok : GraphOK g) (a : Run.Args)
+    (c : Choices E) (e : E) (n0 : Nat) (cs : List Int) (tr' : List Ev)
+    (hs : (.update cs :: tr') <:+ (Run.buildReloaded g a c e n0).1.trace) :
+    cs = exactCounts g (stOf tr') :=
+  counts_at_every_update (Run.buildReloaded_tinv gok a c e n0).ok hs
+
+/-- **Finished counts never decrease**: a build that is `Done` (`Failed`) at some point of an
+    invocation still is at every later point of the same `Work`. -/
+theorem finished_never_decrease {E : Type} {g : Graph} (gok : GraphOK g) (a : Run.Args) (c : Choices E)
+    (e : E) (tr1 tr2 : List Ev) (hs : (tr2 ++ tr1) <:+ (Run.build g a c e).1.trace) (hl : Ev.load ∉ tr2)
+    (b : Nat) (x : St) (hx : x = .done ∨ x = .failed) (hb : stOf tr1 b = x) : stOf (tr2 ++ tr1) b = x :=
+  finished_monotone (okTrace_suffix (Run.build_tinv gok a c e).ok hs) hl b x hx hb
+
+/-- Non-vacuity: the example run emits updates, the last one showing two finished builds. -/
+example : (Run.build Ex.g0 Ex.a0 Ex.c0 ()).1.trace.any (fun ev => ev == .update [0, 0, 0, 0, 2, 0]) = false ∧
+    (Run.build Ex.g0 Ex.a0 Ex.c0 ()).1.trace.any (fun ev => ev == .update [0, 0, 0, 1, 1, 0]) = true := by decide
 
 end N2V.C19
